@@ -496,10 +496,10 @@ def check_C07(tier, seed):
     quick = tier == "quick"
     # (a) analysis vs. reflr over the lazily chosen family (harness inside package builder)
     ov = RepoOverlay(w, "builder", "builder", {"zz_verif_c07.go": open(os.path.join(VERIF, "harness", "c07a_builder.go")).read()}, ["Harness_C07a"])
-    menu = 34
+    menu = 38
     if quick:
         rnd = random.Random(seed)
-        pick = sorted(set([0, 1, 4, 6, 8, 33] + rnd.sample(range(menu), 5)))
+        pick = sorted(set([0, 1, 4, 6, 8, 33, 35, 37] + rnd.sample(range(menu), 5)))
     else:
         pick = list(range(menu))
     agg_a = overlay_explore(rep, "C07", ov, "Harness_C07a$", min(pick), max(pick), 300 if quick else 1200, "c07a_family",
@@ -523,7 +523,7 @@ def check_C07(tier, seed):
     # with the flag every cyclic grammar must be accepted or rejected with the leader error, never crash
     agg = merge_agg(agg_a, agg_b)
     std_cov(rep, agg, cases_b + cases_ok,
-            {"family": "2 rules x 2 lazily chosen slots from a menu of 34 (4 terminals + 15 operator shapes x 2 referenced rules) + a fixed nullable rule and a fixed throwing rule; first slot of rule A = job argument (%d of 34 in this tier)" % len(pick),
+            {"family": "2 rules x 2 lazily chosen slots from a menu of 38 (4 terminals + 17 operator shapes x 2 referenced rules) + a fixed nullable rule and a fixed throwing rule; first slot of rule A = job argument (%d of 38 in this tier)" % len(pick),
              "runtime_monitor": "input <= %d bytes on %d accepted grammars" % (2 if quick else 3, len(run_b)),
              "cyclic_catalogue": "%d grammars with a first-call cycle: %d rejected without the flag, %d accepted" % (len(cyc), len(rejected_cyclic), len(accepted_cyclic))},
             "(a) one state = one lazily completed grammar prefix (all completions of untouched slots at once), compared with the syntactic reference reflr; (b) one state = one input class of a generated parser under the re-entry monitor",
@@ -709,7 +709,7 @@ def check_C13(tier, seed):
         "".join("\t%s,\n" % go_str_lit(g) for g in gs), maxlen, width)
     ov = RepoOverlay(w, ".", "main", {"zz_verif_main.go": open(os.path.join(VERIF, "harness", "main_common.go")).read(),
                                       "zz_verif_c13.go": open(os.path.join(VERIF, "harness", "c13_main.go")).read(),
-                                      "zz_verif_c13data.go": extra}, ["Harness_C13text", "Harness_C13mut", "Harness_C13chain"])
+                                      "zz_verif_c13data.go": extra}, ["Harness_C13text", "Harness_C13mut", "Harness_C13chain", "Harness_C13code"])
     N = 3 if quick else 4
     B = 16
     agg1 = overlay_explore(rep, "C13", ov, "Harness_C13text$", 0, (N + 1) * B - 1, 240 if quick else 3000, "c13_text", sample_every=97, max_triage=4)
@@ -733,7 +733,10 @@ def check_C13(tier, seed):
     agg2 = overlay_explore(rep, "C13", ov, "Harness_C13mut$", 0, 0, 120 if quick else 900, "c13_mut", sample_every=197, max_triage=4, args=set(args))
     # reference chains of depth 3, 8 and 34 (the last one exhibits finding F18: 2^d visits in the nullable analysis)
     agg3 = overlay_explore(rep, "C13", ov, "Harness_C13chain$", 0, 0, 120, "c13_chain", sample_every=1, max_triage=2, args={3, 8, 34}, max_steps=30_000_000)
-    agg = merge_agg(merge_agg(agg1, agg2 or {}), agg3 or {})
+    # code-block bodies of <= 2 (3) symbolic bytes in four places
+    code_args = [4 * f + k for f in range(4) for k in range(0, (2 if quick else 3) + 1)]
+    agg4 = overlay_explore(rep, "C13", ov, "Harness_C13code$", 0, 0, 120 if quick else 900, "c13_code", sample_every=97, max_triage=4, args=set(code_args))
+    agg = merge_agg(merge_agg(merge_agg(agg1, agg2 or {}), agg3 or {}), agg4 or {})
     agg.pop("_samples", None) if False else None
     # cross-check of the harness staging against the real binary: exit status and no panic trace
     nat_ok = 0
@@ -853,10 +856,12 @@ func Harness_C03rt(n int) {
     agg = overlay_explore(rep, "C03", ov, "Harness_C03rt$", 0, len(rt) - 1, 120, "c03_roundtrip", sample_every=1, max_triage=5, max_steps=20_000_000 if quick else 400_000_000)
     lay_args = [ci * maxseps + si for ci, (_, _, seps, _) in enumerate(lay) for si in range(len(seps))]
     tmo = 120 if quick else 900
-    agg = merge_agg(agg, overlay_explore(rep, "C03", ov, "Harness_C03layout$", 0, 0, tmo, "c03_layout", sample_every=23, max_triage=3, args=set(lay_args)))
-    agg = merge_agg(agg, overlay_explore(rep, "C03", ov, "Harness_C03comment$", 0, 0, tmo, "c03_comment", sample_every=23, max_triage=3, args=set(lay_args[::2] if quick else lay_args)))
-    esc_args = [q * 16 + n for q in (0, 1, 2, 3) for n in ((1, 3, 5) if quick else (1, 3, 5, 9))]  # double, single, class, class range bound
-    agg = merge_agg(agg, overlay_explore(rep, "C03", ov, "Harness_C03escape$", 0, 0, tmo, "c03_escape", sample_every=23, max_triage=3, args=set(esc_args)))
+    big = {} if quick else {"max_steps": 40_000_000}
+    agg = merge_agg(agg, overlay_explore(rep, "C03", ov, "Harness_C03layout$", 0, 0, tmo, "c03_layout", sample_every=23, max_triage=3, args=set(lay_args), **big))
+    agg = merge_agg(agg, overlay_explore(rep, "C03", ov, "Harness_C03comment$", 0, 0, tmo, "c03_comment", sample_every=23, max_triage=3, args=set(lay_args[::2] if quick else lay_args), **big))
+    # double, single, class, class range bound; the 9-byte form (\UXXXXXXXX) only in the two quotings
+    esc_args = [q * 16 + n for q in (0, 1, 2, 3) for n in (1, 3, 5)] + ([] if quick else [q * 16 + 9 for q in (0, 1)])
+    agg = merge_agg(agg, overlay_explore(rep, "C03", ov, "Harness_C03escape$", 0, 0, tmo if quick else 2400, "c03_escape", sample_every=23, max_triage=3, args=set(esc_args)))
     code_args = [8 * f + k for f in range(6) for k in range(0, (3 if quick else 4) + 1)]
     agg = merge_agg(agg, overlay_explore(rep, "C03", ov, "Harness_C03code$", 0, 0, tmo, "c03_code", sample_every=23, max_triage=3, args=set(code_args)))
     cls_args = list(range(0, (3 if quick else 4) + 1)) + [10 * sh + k for sh in range(1, 9) for k in range(1, (2 if quick else 3) + 1)]
@@ -1020,7 +1025,10 @@ def check_C04(tier, seed):
             rep.samples.append({"harness": "Harness_C04name", "arg": j["arg"], "model": s["model"]})
         cexs += [(j["arg"], c) for c in j.get("counterexamples") or []]
     confirmed = 0
-    for arg, cx in cexs[:3]:
+    # witnesses of the known digit-suffix collision (F4) and any other collision have separate replay budgets
+    digit = [(a, c) for a, c in cexs if "ends in digits" in c.get("msg", "")]
+    other = [(a, c) for a, c in cexs if "ends in digits" not in c.get("msg", "")]
+    for arg, cx in digit[:2] + other[:4]:
         m = cx["model"]
         l1, l2 = 1 + arg % 3, 1 + arg // 3
         r1 = "".join(chr(m.get("r1_%d" % k, 65)) for k in range(l1))
@@ -1028,8 +1036,9 @@ def check_C04(tier, seed):
         i1, i2 = m.get("i1", 1), m.get("i2", 1)
         text = c04_witness(r1, i1, r2, i2)
         rel = "c04_witness_%d/p" % confirmed
-        ok, err, code = gen_parser(w, text, [], rel)
-        doc = {"property": "C04", "case": "funcName", "msg": cx["msg"], "model": m, "peg": text, "tags": [], "input": [],
+        wflags = ["-nolint"] if m.get("nolint") else []
+        ok, err, code = gen_parser(w, text, wflags, rel)
+        doc = {"property": "C04", "case": "funcName", "msg": cx["msg"], "model": m, "peg": text, "tags": [], "input": [], "flags": wflags,
                "witness": {"rule1": r1, "index1": i1, "rule2": r2, "index2": i2}}
         if not ok:
             rep.unconfirmed.append("C04name: witness grammar for %s was rejected by the tool: %s" % (doc["witness"], err[-200:]))
